@@ -93,3 +93,70 @@ Theorem C12_neuro_state_independent_of_quotient : forall (n : neuroR) a f,
   err (npid n') = e /\ fdb (npid n') = f /\ nec n' = e - err p /\ var (npid n') = (e - err p) - nec n.
 Proof. exact neuro_state_independent_of_quotient. Qed.
 Print Assumptions C12_neuro_state_independent_of_quotient.
+
+(* ------------------------------------------------------------------------------------------------------------------
+   ROUNDED ARITHMETIC (C12/PidRound.v): the same model terms at Rnd_ops rnd - every + - * / followed by rnd : R -> R,
+   comparisons exact; overflow outside the model.  mono_rnd rnd: rnd monotone, rnd 0 = 0, rnd 1 = 1, rnd (-x) = - rnd x;
+   idem_rnd rnd: rnd (rnd x) = rnd x (Common/RoundMono.v; binary64 round-to-nearest-even satisfies both, by Flocq). *)
+From LibaV Require Import Common.RoundOps Common.RoundFlocq Common.RoundMono C12.PidRound.
+
+(* output within the limits after every step of every history, three modes mixed: verbatim, for EVERY rnd (no hypothesis
+   on rnd: A_SAT is comparisons and a selection) *)
+Theorem C12_round_history_out_in_limits : forall (rnd : R -> R) (ops : list op) (s : pidR) (o : op),
+  outmin s <= outmax s ->
+  let s' := fold_left (rstep rnd) (ops ++ [o]) s in
+  outmin s <= out s' <= outmax s /\ same_params s s'.
+Proof. exact r_history_out_in_limits. Qed.
+Print Assumptions C12_round_history_out_in_limits.
+
+Theorem C12_round_neuro_out_in_limits : forall (rnd : R -> R) (n : neuroR) a f,
+  outmin (npid n) <= outmax (npid n) ->
+  outmin (npid n) <= out (npid (neuro_inc (Rnd_ops rnd) n a f)) <= outmax (npid n) /\
+  outmin (npid n) <= out (npid (neuro_run (Rnd_ops rnd) n a f)) <= outmax (npid n).
+Proof. exact r_neuro_out_in_limits. Qed.
+Print Assumptions C12_round_neuro_out_in_limits.
+
+(* positional integrator under monotone rounding, stored sum a number of the format: once at or beyond a clamp it never
+   moves further out - verbatim *)
+Theorem C12_round_integrator_no_further_out : forall (rnd : R -> R), mono_rnd rnd -> forall s f e,
+  0 <= ki s -> summin s <= 0 <= summax s -> rnd (sum s) = sum s ->
+  (summax s <= sum s -> sum (pid_pos_ (Rnd_ops rnd) s f e) <= sum s) /\
+  (sum s <= summin s -> sum s <= sum (pid_pos_ (Rnd_ops rnd) s f e)).
+Proof. exact r_integrator_no_further_out. Qed.
+Print Assumptions C12_round_integrator_no_further_out.
+
+(* ... and over every history it overshoots a clamp by at most one ROUNDED increment:
+   r_sum_bound rnd s E  :=  rnd (summin s - rnd (ki s * E)) <= sum s <= rnd (summax s + rnd (ki s * E)) *)
+Theorem C12_round_integrator_overshoot : forall (rnd : R -> R), mono_rnd rnd -> idem_rnd rnd ->
+  forall (es : list (R * R)) (s : pidR) (E : R),
+  0 <= ki s -> summin s <= 0 <= summax s ->
+  rnd (summin s) = summin s -> rnd (summax s) = summax s -> rnd (sum s) = sum s ->
+  summin s <= sum s <= summax s -> 0 <= E ->
+  Forall (fun fe => Rabs (snd fe) <= E) es ->
+  r_sum_bound rnd (fold_left (fun st fe => pid_pos_ (Rnd_ops rnd) st (fst fe) (snd fe)) es s) E.
+Proof. exact r_integrator_overshoot. Qed.
+Print Assumptions C12_round_integrator_overshoot.
+
+(* IEEE binary64 round-to-nearest-even (rnd64 of Common/RoundFlocq.v) *)
+Theorem C12_b64_history_out_in_limits : forall (ops : list op) (s : pidR) (o : op),
+  outmin s <= outmax s ->
+  let s' := fold_left (rstep rnd64) (ops ++ [o]) s in
+  outmin s <= out s' <= outmax s /\ same_params s s'.
+Proof. exact b64_history_out_in_limits. Qed.
+Print Assumptions C12_b64_history_out_in_limits.
+
+Theorem C12_b64_integrator_no_further_out : forall s f e,
+  0 <= ki s -> summin s <= 0 <= summax s -> rnd64 (sum s) = sum s ->
+  (summax s <= sum s -> sum (pid_pos_ (Rnd_ops rnd64) s f e) <= sum s) /\
+  (sum s <= summin s -> sum s <= sum (pid_pos_ (Rnd_ops rnd64) s f e)).
+Proof. exact b64_integrator_no_further_out. Qed.
+Print Assumptions C12_b64_integrator_no_further_out.
+
+Theorem C12_b64_integrator_overshoot : forall (es : list (R * R)) (s : pidR) (E : R),
+  0 <= ki s -> summin s <= 0 <= summax s ->
+  rnd64 (summin s) = summin s -> rnd64 (summax s) = summax s -> rnd64 (sum s) = sum s ->
+  summin s <= sum s <= summax s -> 0 <= E ->
+  Forall (fun fe => Rabs (snd fe) <= E) es ->
+  r_sum_bound rnd64 (fold_left (fun st fe => pid_pos_ (Rnd_ops rnd64) st (fst fe) (snd fe)) es s) E.
+Proof. exact b64_integrator_overshoot. Qed.
+Print Assumptions C12_b64_integrator_overshoot.
